@@ -5,8 +5,9 @@ Open Scope N_scope.
 Inductive case :=
 | CRound (D : dialect) (seqid source ftype : str) (s e : option Z) (score strand frame : str)
          (m : attrs) (extras : list str)
-         (line : result str)                 (* str(Feature(..., attributes=m, dialect=D)) *)
-         (re : result fobs)                  (* feature_from_line(line, dialect=D) *)
+         (ko : bool)                         (* keep_order: keys listed in the dialect's order first, in that order; the others after them *)
+         (line : result str)                 (* str(Feature(..., attributes=m, dialect=D, keep_order=ko)) *)
+         (re : result fobs)                  (* feature_from_line(line, dialect=D, keep_order=ko) *)
 | CInfer (s : str) (impl : result (attrs * dialect))      (* parser._split_keyvals(s) *)
 | CWith (D : dialect) (s : str) (impl : result attrs).    (* parser._split_keyvals(s, dialect=D) *)
 
@@ -14,12 +15,16 @@ Definition count_char (c : N) (s : str) : nat := length (filter (N.eqb c) s).
 
 Definition cols_clean (cols : list str) : bool := forallb (free_of [TAB; 10; 13]) cols.
 
+Fixpoint ins_kv (x : str * list str) (l : attrs) : attrs :=
+  match l with [] => [x] | y :: l' => if str_ltb (fst x) (fst y) then x :: l else y :: ins_kv x l' end.
+Definition by_key (a : attrs) : attrs := fold_right ins_kv [] a.
+
 Definition verdict (c : case) : Z :=
   match c with
-  | CRound D seqid source ftype s e score strand frame m extras line re =>
-    let f := mkFeature seqid source ftype s e score strand frame m extras D false false in
+  | CRound D seqid source ftype s e score strand frame m extras ko line re =>
+    let f := mkFeature seqid source ftype s e score strand frame m extras D ko false in
     let mline := feature_str to_quote f in
-    let mre := feature_from_line isword mline (Some D) false in
+    let mre := feature_from_line isword mline (Some D) ko in
     let tie := match line, re, mre with
                | Ok l, Ok o, Ok mf => str_eqb l mline && fobs_matches to_quote mf o
                | Ok l, Err _, Err _ => str_eqb l mline
@@ -27,7 +32,9 @@ Definition verdict (c : case) : Z :=
                end in
     let spec := match line, re with
                 | Ok l, Ok o =>
-                    attrs_eqb (o_attrs o) m && lstr_eqb (o_cols o) (feature_cols f) && ozeqb (o_start o) s
+                    (* the mapping comes back: same keys, same value lists (key order is the printed one when keep_order is on) *)
+                    attrs_eqb (by_key (o_attrs o)) (by_key m) && (ko || attrs_eqb (o_attrs o) m)
+                    && lstr_eqb (o_cols o) (feature_cols f) && ozeqb (o_start o) s
                     && ozeqb (o_end o) e && lstr_eqb (o_extra o) extras
                     && Nat.eqb (count_char TAB l) (8 + length extras) && Nat.eqb (count_char 10 l) 0
                     && Nat.eqb (count_char 13 l) 0
